@@ -20,6 +20,9 @@ type queueSys struct {
 	q    *queue.Queue[int]
 	l    *queue.LQueue[int]
 	hasN int
+	// bulk runs: Search probes only at the steps probeAt selects (the model's cost per probe is linear)
+	probeAt func(step int) bool
+	step    int
 }
 
 func (s *queueSys) size() int {
@@ -75,7 +78,12 @@ func (s *queueSys) Do(o tt.Op) tt.Res {
 }
 
 func (s *queueSys) Proj() any {
-	p := queueProj{Has: make([]bool, s.hasN)}
+	n := s.hasN
+	s.step++
+	if s.probeAt != nil && !s.probeAt(s.step) {
+		n = 0
+	}
+	p := queueProj{Has: make([]bool, n)}
 	p.PP = tt.Safe(func() {
 		p.Size = s.size()
 		if s.q != nil {
@@ -83,7 +91,7 @@ func (s *queueSys) Proj() any {
 		} else {
 			p.Peek = s.l.Peek()
 		}
-		for v := 0; v < s.hasN; v++ {
+		for v := 0; v < n; v++ {
 			if s.q != nil {
 				p.Has[v] = s.q.Search(v)
 			} else {
@@ -151,12 +159,14 @@ func queueLinear(cfg Config, file string, runs, steps int) (int, error) {
 	}
 	// bulk runs: fill far past the usual growth thresholds (256, 1024), drain completely
 	// with a short refill in the middle, refill: size-dependent paths of the storage
-	bulk := 1500
+	// 4200 > 4096; the fill never uses the values 0..5, the last three elements put in are 3, 4, 5:
+	// the projection then searches for values that occur exactly once, at the far end
+	bulk := 4200
 	if cfg.Tier == "thorough" {
-		bulk = 5000
+		bulk = 9000
 	}
 	for r := 0; r < 2; r++ {
-		s := &queueSys{hasN: hasN}
+		s := &queueSys{hasN: hasN, probeAt: func(st int) bool { return st%97 == 0 || (st >= bulk-1 && st <= bulk+3) }}
 		linked := r == 1
 		ls.Run(s, func(step int) (tt.Op, bool) {
 			switch {
@@ -164,8 +174,10 @@ func queueLinear(cfg Config, file string, runs, steps int) (int, error) {
 				return op("newl", 7), true
 			case step == 0:
 				return op("newq"), true
+			case step <= bulk-3:
+				return op("enq", 6+(step*7)%50), true
 			case step <= bulk:
-				return op("enq", 1+(step*7)%50), true
+				return op("enq", 3+step-(bulk-2)), true
 			case step <= bulk+bulk/2:
 				return op("deq"), true
 			case step <= bulk+bulk/2+20:
